@@ -1037,7 +1037,9 @@ Qed.
    stated for the program in canonical window order (allreduce_prog_w: all sends of the window, then its
    receives - the convention of MPI/Prog.v's `phase`, used by the allgather programs), and the relation between
    the two programs is proved: allreduce_prog_w is obtained from the literal program by moving sends in front of
-   receives posted earlier (nbeq: congruence closure of that one swap). *)
+   receives posted earlier (nbeq: congruence closure of that one swap).
+   C03/ReducePosted.v carries the theorem over to the LITERAL program under the posted-receive semantics of
+   MPI/SemPosted.v (nbeq is a simulation there; confluence of that semantics). *)
 Definition allreduce_prog_w (P m me : Z) : prog :=
   rec_gen P m true 0 (a2a_prog_w P m 0) (S (Z.to_nat m)) m me (sym_leaf me) (fun d => Ret d).
 
